@@ -16,6 +16,7 @@ package shmipc
 
 import (
 	"fmt"
+	"net"
 	"os"
 	"runtime"
 	"sync"
@@ -487,10 +488,15 @@ func (sc *v17Scn) waitFor(bound time.Duration, cond func(o *v17Obs) bool) bool {
 }
 
 // SessionManager.Close with its duration; the sampler is stopped first (see Corr/RebuildCorr.v)
-func (sc *v17Scn) closeManager() time.Duration {
+func (sc *v17Scn) closeManager() time.Duration { return sc.closeManagerOpt(true) }
+
+// preObserve = false: no snapshot before Close (a watcher holds sm.Lock during its dial)
+func (sc *v17Scn) closeManagerOpt(preObserve bool) time.Duration {
 	sc.stopSamplerNow()
 	sc.mu.Lock()
-	sc.observe()
+	if preObserve {
+		sc.observe()
+	}
 	sc.hist = append(sc.hist, v17Ev{K: "closebegin", T: sc.ms()})
 	atomic.StoreInt32(&sc.closing, 1)
 	sc.mu.Unlock()
@@ -924,6 +930,249 @@ func v17CloseDuringHotRestart(name string, n int, interval time.Duration, epoch 
 	return sc.result()
 }
 
+// SessionManager.Close while a rebuild dial is in flight: the pool's session was lost, the rebuild timer
+// has fired, the watcher is inside newClientSession (the server accepted the connection but answers the
+// handshake late).  Close must wait for that watcher and close what it stored: after Close has returned
+// the pool's session is closed, GetStream fails, and the server's end of the replacement goes away.
+func v17CloseInFlight(name string, interval time.Duration, delay time.Duration) v17Case {
+	pid := os.Getpid()
+	sc := &v17Scn{name: name, n: 1, t0: time.Now(), interval: interval,
+		path:   fmt.Sprintf("/tmp/v17_%d_%s.sock", pid, name),
+		prefix: fmt.Sprintf("/dev/shm/v17_%d_%s", pid, name),
+		feat:   map[string]bool{}, stats: map[string]int64{}, notes: map[string]string{},
+		objID: map[*streamPool]int{}, srvSeen: map[*Listener]map[*Session]bool{},
+		stopSampler: make(chan struct{}), samplerDone: make(chan struct{})}
+	bail := func(msg string) v17Case {
+		return v17Case{ID: name, N: 1, Oracle: []string{"C17:harness-setup | " + msg}, SkipModel: true}
+	}
+	os.Remove(sc.path)
+	ln, err := net.ListenUnix("unix", &net.UnixAddr{Name: sc.path, Net: "unix"})
+	if err != nil {
+		return bail(err.Error())
+	}
+	defer func() { ln.Close(); os.Remove(sc.path) }()
+	conns := make(chan net.Conn, 8)
+	go func() {
+		for {
+			c, err := ln.Accept()
+			if err != nil {
+				return
+			}
+			conns <- c
+		}
+	}()
+	conf := DefaultSessionManagerConfig()
+	conf.Address, conf.Network, conf.SessionNum = sc.path, "unix", 1
+	conf.MemMapType = MemMapTypeMemFd
+	conf.ShareMemoryPathPrefix = sc.prefix
+	conf.QueuePath = sc.prefix + "_queue"
+	conf.ShareMemoryBufferCap = 4 << 20
+	conf.rebuildInterval = interval
+	conf.InitializeTimeout = 5 * time.Second
+	serve := func(c net.Conn, d time.Duration) <-chan *Session {
+		ch := make(chan *Session, 1)
+		go func() {
+			time.Sleep(d)
+			sconf := *conf.Config
+			s, err := Server(c, &sconf)
+			if err != nil {
+				ch <- nil
+				return
+			}
+			ch <- s
+		}()
+		return ch
+	}
+	first := make(chan *Session, 1)
+	go func() {
+		select {
+		case c := <-conns:
+			first <- <-serve(c, 0)
+		case <-time.After(5 * time.Second):
+			first <- nil
+		}
+	}()
+	if sc.sm, err = NewSessionManager(conf); err != nil {
+		return bail(err.Error())
+	}
+	s1 := <-first
+	if s1 == nil {
+		sc.sm.Close()
+		return bail("no first server session")
+	}
+	sc.feat["session-killed"], sc.feat["close-while-rebuild-dial-in-flight"] = true, true
+	v17reg.Lock()
+	v17reg.byMgr[sc.sm] = sc
+	v17reg.Unlock()
+	sc.mu.Lock()
+	sc.last = sc.snapshot()
+	sc.mu.Unlock()
+	sc.startSampler()
+	sc.probe(0, false)
+
+	s1.Close()
+	if !sc.waitFor(5*time.Second, func(o *v17Obs) bool { return o.Objs[o.Pools[0]][1] == 0 }) {
+		sc.fail("C17:harness-setup", "client end did not notice the lost session")
+	}
+	sc.probeGap(0, 2)
+	// no snapshots while the dial is in flight: the watcher holds sm.Lock across newClientSession
+	sc.stopSamplerNow()
+	var c2 net.Conn
+	select {
+	case c2 = <-conns:
+	case <-time.After(interval + 5*time.Second):
+		sc.fail("C17:lost-pool-not-rebuilt", "no rebuild dial seen")
+	}
+	var s2 *Session
+	if c2 != nil {
+		second := serve(c2, delay)
+		// the dial is on the wire: the rebuild timer of pool 0 has fired
+		sc.mu.Lock()
+		sc.hist = append(sc.hist, v17Ev{K: "timer", I: 0, T: sc.ms()})
+		sc.mu.Unlock()
+		time.Sleep(delay / 5)
+		d := sc.closeManagerOpt(false)
+		sc.setStat("close_ms", int64(d/time.Millisecond))
+		s2 = <-second
+		// what the property promises once Close has returned
+		sc.sm.RLock()
+		cur := sc.sm.pools[0].Session()
+		sc.sm.RUnlock()
+		live := !cur.IsClosed()
+		sc.setStat("pool_session_live_after_close", v17b(live))
+		if live {
+			sc.fail("C17:close-returns-with-live-session", fmt.Sprintf("SessionManager.Close was called while the rebuild dial of pool 0 was in flight (server handshake delayed %v); after Close returned the pool holds a live session (the replacement, stored after the pools were closed)", delay))
+		}
+		t := time.Now()
+		st, gerr := sc.sm.GetStream()
+		if gerr == nil {
+			sc.fail("C17:getstream-succeeds-after-close", fmt.Sprintf("GetStream on the closed manager returned stream of session epoch %d", st.Session().epochID))
+			st.Close()
+		}
+		if time.Since(t) > 500*time.Millisecond {
+			sc.fail("C17:getstream-blocked", "GetStream after Close")
+		}
+		if s2 != nil {
+			select {
+			case <-s2.CloseChan():
+				sc.setStat("server_end_closed", 1)
+			case <-time.After(4 * time.Second):
+				sc.setStat("server_end_closed", 0)
+				sc.fail("C17:server-session-left-after-close", "4 s after SessionManager.Close returned the server still holds a live session with the closed manager")
+			}
+		} else {
+			sc.setNote("server", "the delayed server handshake failed (client gave up)")
+		}
+	}
+	sc.cleanup()
+	if s2 != nil {
+		s2.Close()
+	}
+	s1.Close()
+	return sc.result()
+}
+
+// Regression scenario for "C17:hot-restart-event-during-close-leaves-live-session": a hot-restart event
+// arrives on a parked session while SessionManager.Close runs.  The interleaving is forced by holding
+// sm.RLock: the handler queues for sm.Lock first, Close (cancel, wg.Wait, ...) queues behind it.  Whatever
+// the handler does, after Close has returned the manager owns no live session.
+func v17CloseRace(name string, n int, interval time.Duration, epoch uint64) v17Case {
+	sc, err := v17NewScn(name, n, interval)
+	if err != nil {
+		return v17Case{ID: name, N: n, Oracle: []string{"C17:harness-setup | " + err.Error()}, SkipModel: true}
+	}
+	sc.feat["hot-restart"], sc.feat["hot-restart-event-during-close"] = true, true
+	sc.startSampler()
+	oldL := sc.lis
+	srv0 := sc.serverSessionOf(oldL, 0)
+	nl, err := v17NewListener(sc.path)
+	if err != nil || srv0 == nil {
+		sc.fail("C17:harness-setup", "second listener / server session")
+	}
+	sc.mu.Lock()
+	sc.oldLis, sc.lis = oldL, nl
+	sc.mu.Unlock()
+	if err := oldL.HotRestart(epoch); err != nil {
+		sc.fail("C17:harness-setup", "HotRestart: "+err.Error())
+	}
+	dl := time.Now().Add(hotRestartCheckTimeout + 2*time.Second)
+	for time.Now().Before(dl) && !oldL.IsHotRestartDone() {
+		time.Sleep(10 * time.Millisecond)
+	}
+	time.Sleep(150 * time.Millisecond)
+	if sc.accepted(nl) != n {
+		sc.fail("C17:harness-setup", fmt.Sprintf("hand-over incomplete: %d sessions on the new server", sc.accepted(nl)))
+	}
+	// from here on the history is written by hand: the handler wrapper would need sc.mu and sm's lock
+	sc.stopSamplerNow()
+	v17reg.Lock()
+	delete(v17reg.byMgr, sc.sm)
+	v17reg.Unlock()
+	sc.mu.Lock()
+	sc.observe()
+	sc.hist = append(sc.hist, v17Ev{K: "closebegin", T: sc.ms()})
+	atomic.StoreInt32(&sc.closing, 1)
+	sc.mu.Unlock()
+
+	sc.sm.RLock()
+	if srv0 != nil && !srv0.IsClosed() {
+		_ = srv0.hotRestart(epoch+1, typeHotRestart) // what the old server sends when it tries again
+	}
+	time.Sleep(150 * time.Millisecond) // the handler is queued at sm.Lock()
+	t := time.Now()
+	done := make(chan struct{})
+	go func() { sc.sm.Close(); close(done) }()
+	time.Sleep(150 * time.Millisecond) // Close is past cancel and wg.Wait, queued behind the handler
+	sc.sm.RUnlock()
+	select {
+	case <-done:
+	case <-time.After(8 * time.Second):
+		sc.fail("C17:session-manager-close-blocked", "SessionManager.Close did not return within 8 s")
+	}
+	sc.setStat("close_ms", int64(time.Since(t)/time.Millisecond))
+	time.Sleep(200 * time.Millisecond) // a handler that ran after Close would have dialled by now
+	sc.mu.Lock()
+	q := sc.snapshot()
+	sc.hist = append(sc.hist, v17Ev{K: "closeend", T: sc.ms(), Obs: q})
+	sc.last = q
+	sc.mu.Unlock()
+	live := 0
+	for k, id := range q.Pools {
+		if q.Objs[id][1] == 1 {
+			live++
+			sc.fail("C17:hot-restart-event-during-close-leaves-live-session",
+				fmt.Sprintf("a HotRestart(%d) event reached the manager on a parked session while SessionManager.Close was running; after Close returned pool %d holds a live session of epoch %d", epoch+1, k, q.Objs[id][0]))
+		}
+	}
+	sc.setStat("live_pool_sessions_after_close", int64(live))
+	if st, gerr := sc.sm.GetStream(); gerr == nil {
+		sc.fail("C17:hot-restart-event-during-close-leaves-live-session", "GetStream on the closed manager succeeded")
+		st.Close()
+	}
+	// the new server's ends of this manager's sessions go away
+	gone := false
+	dl = time.Now().Add(4 * time.Second)
+	for time.Now().Before(dl) && !gone {
+		cnt := 0
+		nl.sessions.sessionMu.Lock()
+		for s := range nl.sessions.data {
+			if !s.IsClosed() {
+				cnt++
+			}
+		}
+		nl.sessions.sessionMu.Unlock()
+		gone = cnt == 0
+		if !gone {
+			time.Sleep(50 * time.Millisecond)
+		}
+	}
+	if !gone {
+		sc.fail("C17:hot-restart-event-during-close-leaves-live-session", "4 s after SessionManager.Close returned the new server still holds a live session with the closed manager")
+	}
+	sc.cleanup()
+	return sc.result()
+}
+
 // Close while a watcher waits for its rebuild timer
 func v17CloseDuringWait(name string, n int, interval time.Duration) v17Case {
 	sc, err := v17NewScn(name, n, interval)
@@ -1021,6 +1270,8 @@ func TestVerif_C17(t *testing.T) {
 			func() v17Case { return v17CloseDuringWait(tag("closewait"), 2, i5) },
 			func() v17Case { return v17CloseWithParked(tag("closeparked"), 2, i3, ep+7) },
 			func() v17Case { return v17CloseDuringHotRestart(tag("closehr"), 2, i4, ep+11) },
+			func() v17Case { return v17CloseInFlight(tag("closeinflight"), i6, 500*time.Millisecond) },
+			func() v17Case { return v17CloseRace(tag("closerace"), 2, i3, ep+21) },
 		}
 		res := make([]v17Case, len(jobs))
 		var wg sync.WaitGroup
